@@ -76,15 +76,21 @@ def jobs(tier):
                    defines=CUT + ["-DCAL_TYPE=VNACAL_T8", "-DCAL_ROWS=2", "-DCAL_COLS=2"], unwind=14, union_struct=True, kind="bounded",
                    functions=["_vnacal_new_add_common", "_vnacal_new_get_parameter", "vnacal_new_add_double_reflect_m"],
                    bound="T8 2x2, double reflect with a valid unknown first parameter and an invalid second handle", timeout=200))
+    J.append(V.Job("refused_set_frequency.T8_1x1", H, "h_refused_set_frequency",
+                   BASE + ["vnacal_make_vector_parameter.c", "vnacal_delete_parameter.c"],
+                   defines=CUT + ["-DCAL_TYPE=VNACAL_T8", "-DCAL_ROWS=1", "-DCAL_COLS=1"], unwind=14, union_struct=True, kind="bounded",
+                   functions=["vnacal_new_set_frequency_vector", "_vnacal_new_check_all_frequency_ranges"],
+                   bound="T8 1x1, a reflect with a vector parameter over 1..2 GHz in use; new frequencies 3..5 GHz", timeout=200))
     tsrcs = sorted(set(srcs + ["vnacal_make_unknown_parameter.c", "vnacal_delete_parameter.c"]))
     for t in (("VNACAL_T8",) if tier == "quick" else ("VNACAL_T8", "VNACAL_U8", "VNACAL_TE10", "VNACAL_UE10")):
-        for v in (0, 1, 2):
+        for v in (0, 1, 2, 3, 4):
             J.append(V.Job("is_trl.%s_v%d" % (t[7:], v), H, "h_is_trl", tsrcs,
                            defines=CUT + ["-DCAL_TYPE=%s" % t, "-DCAL_ROWS=2", "-DCAL_COLS=2", "-DTRL_VARIANT=%d" % v],
                            unwind=20, union_struct=True, kind="bounded", canary=(v == 0 and t == "VNACAL_T8"),
                            functions=["_vnacal_new_solve_is_trl", "classify_standard"],
                            bound="%s 2x2, through + %s + line with two unknown parameters; measured values symbolic" %
-                                 (t, ("double reflect", "single reflect on port 2 (full M)", "single reflect on port 1 (1x1 M)")[v]),
+                                 (t, ("double reflect", "single reflect on port 2 (full M)", "single reflect on port 1 (1x1 M)",
+                                      "double reflect unknown/short", "double reflect short/unknown")[v]),
                            timeout=300))
     return J
 
